@@ -288,3 +288,22 @@ def replay_generic(path):
             bad += 1
             print(f'VIOLATION property={rp["property"]} replay={path}')
     return 1 if bad else 0
+
+
+def tlc_simulate(module, cfg, *, num, depth, seed, timeout=600):
+    """Random behaviours of a specification (TLC -simulate); returns a list of behaviours, each a
+    list of (action_label, state_dict)."""
+    import glob
+    from . import tlaparse
+    d = tempfile.mkdtemp(prefix='sim_')
+    try:
+        res = tlc.run_tlc(module, cfg, workers=1, extra=['-simulate', f'file={d}/b,num={num}', '-depth', str(depth),
+                                                         '-seed', str(seed)], timeout=timeout)
+        if res.violated:
+            raise MachineryError(f'{module}/{cfg} violates {res.violated} in simulation\n{res.stdout[-2000:]}')
+        out = []
+        for f in sorted(glob.glob(f'{d}/b_*')):
+            out.append(tlaparse.parse_sim_file(f))
+        return out
+    finally:
+        shutil.rmtree(d, ignore_errors=True)
